@@ -182,7 +182,7 @@ def repeated_letter(w, seed, spec):
 
 
 def broadcast_input(w, seed, spec):
-    """finding C14-ellipsis-broadcasts-input: op.T.out_structure() must equal op.in_structure()"""
+    """finding C14-ellipsis-broadcasts-input: op.T.out_structure() must equal op.in_structure() — or op.T is refused"""
     from furax._base.dense import DenseBlockDiagonalOperator as D
     fails = []
     for bshape, xshape, subs in [((2, 3, 5), (3,), 'ij...,j...->i...'), ((2, 3, 4, 5), (3, 5), 'ij...,j...->i...'),
@@ -191,6 +191,8 @@ def broadcast_input(w, seed, spec):
         op = D(blocks, S(xshape), subs)
         try:
             outs = op.T.out_structure()
+        except ValueError:
+            continue                    # rejected with an error: what the property asks for when no exact transpose exists
         except Exception as e:          # noqa: BLE001
             fails.append(f'blocks {bshape}, input {xshape}: op.T.out_structure() raises {type(e).__name__}')
             continue
